@@ -11,7 +11,7 @@ from vcheck.core import Lock
 def run_translator(chk):
     """Regenerate Gen/Kernels_gen.v from the working tree. Returns (ok, message)."""
     with Lock():
-        p = subprocess.run(["/verif/tools/regen.sh"], stdout=subprocess.PIPE, stderr=subprocess.STDOUT, text=True, timeout=900)
+        p = subprocess.run(["/verif/tools/regen.sh", "kernels"], stdout=subprocess.PIPE, stderr=subprocess.STDOUT, text=True, timeout=900)
     ok = p.returncode == 0
     rep = {}
     f = Path("/verif/out/translate_kernels.json")
